@@ -1,6 +1,7 @@
 package rules
 
 import (
+	"go/constant"
 	"go/ast"
 	"go/token"
 	"go/types"
@@ -139,21 +140,27 @@ func identIn(u *core.Unit, e ast.Expr) ast.Expr { return e }
 
 func c17FirstResponse(c *core.Ctx) {
 	const R = "C17.2"
-	c.Rule(R, "first-response test uses the response's own request: the condition that licenses Set-Cookie and Emit(\"initial_headers\") is `!req.Query().Has(\"sid\")` on the listener's request argument (args[1]) — a test on the captured handshake context is constantly true for the whole session (contradiction form: a closure that receives req and tests a captured outer request)")
+	c.Rule(R, "first-response test uses the response's own request: the condition that licenses Set-Cookie and Emit(\"initial_headers\") is `req.Query().Peek(\"sid\") == \"\"` on the listener's request argument (args[1]), the router's own reading of \"no session id\" — a test on the captured handshake context is constantly true for the whole session (contradiction form: a closure that receives req and tests a captured outer request)")
 	_, l := headersListener(c, R)
 	if l == nil {
 		return
 	}
 	g := l.Graph()
+	// `req.Query().Peek("sid") == ""` on the listener's request argument — the same reading of "carries a session id" as
+	// the router's (Verify and HandleRequest treat an empty sid as a handshake: fix f330b3b; `Has("sid")` made the
+	// handshake of `…&sid=` lose its cookie)
 	onReq := func(x *core.Unit, br core.Branch) int {
-		ce, isC := ast.Unparen(br.Cond).(*ast.CallExpr)
-		if !isC || calleeNameOf(ce) != "Has" || len(ce.Args) != 1 {
+		cmp, ok := x.BranchCmp(br)
+		if !ok || cmp.Val == nil || cmp.Val.Kind() != constant.String || constant.StringVal(cmp.Val) != "" {
+			return 0
+		}
+		ce, isC := ast.Unparen(x.Resolve(cmp.X)).(*ast.CallExpr)
+		if !isC || calleeNameOf(ce) != "Peek" || len(ce.Args) != 1 {
 			return 0
 		}
 		if s, _ := core.ConstString(x.Info(), ce.Args[0]); s != "sid" {
 			return 0
 		}
-		// receiver chain: <req>.Query().Has
 		se, _ := ce.Fun.(*ast.SelectorExpr)
 		if se == nil {
 			return 0
@@ -166,7 +173,13 @@ func c17FirstResponse(c *core.Ctx) {
 		if qs == nil || !listenerArg(x, qs.X, 1) {
 			return 0
 		}
-		return -1 // the false edge: no sid on this request
+		switch cmp.Op {
+		case token.EQL:
+			return 1
+		case token.NEQ:
+			return -1
+		}
+		return 0
 	}
 	n := 0
 	for _, e := range filterEv(events(c, l), "emit", "server", "initial_headers") {
